@@ -38,6 +38,8 @@ func runC14(c *engine.Ctx) {
 		return
 	}
 	r6 := c.Rule("R6", "the peer-queue comparator orders: head fits its peer limit (by request index) < head does not fit < nothing waiting (by total) — finite evaluation over all small states", 1)
+	r7 := c.Rule("R7", "every grant from the wait queue goes to the peer currently at its head: the queue is re-sorted and its head re-read between any two grants", 1)
+	c14HeadOnly(c, r7)
 	c14Comparator(c, r6, a)
 	respF := c.P.Field("allocator", "pendingAllocation", "response")
 	if respF == nil {
@@ -533,4 +535,44 @@ func c14Comparator(c *engine.Ctx, rule string, a *allocFacts) {
 	}
 	c.Decide(rule, engine.FuncName(cmp), cmp.Pos(), bad == "",
 		fmt.Sprintf("agrees with the reference order (fits-in-request-order < does-not-fit < nothing-waiting-by-total) on all %d state pairs", n), bad)
+}
+
+// c14HeadOnly (R7): waiting allocations are granted in request order across peers only if each grant is made to
+// whoever heads the priority queue *now*.  Between two grants the granted peer's key has changed, so the queue must
+// be re-sorted (Update/Pop/Remove) and its head re-read (Peek); a loop that keeps granting to the same peer serves
+// that peer's younger requests ahead of other peers' older ones.
+func c14HeadOnly(c *engine.Ctx, rule string) {
+	grant := c.P.Func("allocator", "Allocator", "processNextPendingAllocationForPeer")
+	if grant == nil {
+		c.AnchorMissing(rule, "allocator.Allocator.processNextPendingAllocationForPeer")
+		return
+	}
+	isGrant := func(in ssa.Instruction) bool {
+		cc, ok := in.(*ssa.Call)
+		return ok && cc.Call.StaticCallee() == grant
+	}
+	isPeek := func(in ssa.Instruction) bool {
+		cc, ok := in.(*ssa.Call)
+		return ok && cc.Call.IsInvoke() && cc.Call.Method.Name() == "Peek"
+	}
+	n := 0
+	for _, f := range c.P.FuncsIn("allocator") {
+		engine.Instrs(f, func(in ssa.Instruction) {
+			if !isGrant(in) {
+				return
+			}
+			n++
+			again, at := engine.CanReach(in, isGrant, isPeek)
+			where := ""
+			if at != nil {
+				where = " (next grant at " + c.P.Pos(at.Pos()) + ")"
+			}
+			c.Decide(rule, engine.FuncName(f)+"|grant", in.Pos(), !again,
+				"after a grant the queue head is read again before the next grant",
+				"after granting one waiting allocation another grant can follow without the queue head being read again"+where+": the same peer's younger requests are served ahead of other peers' older ones")
+		})
+	}
+	if n == 0 {
+		c.AnchorMissing(rule, "a call of processNextPendingAllocationForPeer")
+	}
 }
